@@ -13,7 +13,7 @@ use crate::rng::{fnv64_add, Rng};
 use cfb::Version;
 use std::io::SeekFrom;
 
-pub const BUFSIZES: &[Option<usize>] = &[Some(0), Some(1), Some(1023), Some(1024), Some(1025), Some(1500), Some(4096), Some(5000), Some(65536), None];
+pub const BUFSIZES: &[Option<usize>] = &[Some(0), Some(1), Some(1023), Some(1024), Some(1025), Some(1500), Some(4095), Some(4096), Some(4097), Some(5000), Some(65536), None];
 
 fn bufname(b: Option<usize>) -> String {
     match b {
@@ -129,6 +129,10 @@ pub fn handle_step(rng: &mut Rng, sess: &Session, slot: usize, cfg: &HCfg) -> St
         Step::HSeek { slot, from }
     } else if w < 78 + cfg.set_len_pct {
         let n = if rng.chance(1, 2) { gen::pick_size(rng, cfg.max_len) } else { (pick_off(rng) + rng.below(200)).min(cfg.max_len) };
+        if cfg.extreme_seeks && rng.chance(1, 25) {
+            // as extreme as the seek arguments
+            return Step::HSetLen { slot, n: *rng.pick(&[u64::MAX, u64::MAX - 1, u64::MAX - 511, u64::MAX - 4095, 1 << 63, (1 << 63) - 1, 1 << 45, (1 << 45) + 4097]) };
+        }
         Step::HSetLen { slot, n }
     } else if w < 92 {
         Step::HFlush { slot }
@@ -212,6 +216,29 @@ fn c06_one_config(ctx: &Ctx, rep: &mut Report, script_seed: u64, version: Versio
     }
     run_step(&mut sess, Step::HClose { slot: 0 }, done, rep)?;
     sess.check_against_model(false).map_err(|w| ("final | dump | mismatch".to_string(), w))?;
+    if script_seed % 16 == 3 {
+        // a handle that outlives its compound file: every call answers Ok or Err (a panic is
+        // caught by the caller and reported)
+        use std::io::{BufRead, Read, Seek, Write};
+        if let Ok(mut h) = sess.cf().open_stream("/s") {
+            let _ = h.write(&[1, 2, 3]);
+            drop(sess.cf.take());
+            let mut b = [0u8; 16];
+            let _ = h.read(&mut b);
+            let _ = h.fill_buf().map(|x| x.len());
+            let _ = h.seek(SeekFrom::Start(1));
+            let _ = h.seek(SeekFrom::End(i64::MIN));
+            let _ = h.write(&[4u8; 2000]);
+            let _ = h.flush();
+            let _ = h.set_len(5);
+            let _ = h.len();
+            let _ = h.stream_position();
+            drop(h);
+            rep.count("orphan_handle_scripts");
+            let _ = ctx;
+            return Ok(crate::rng::fnv64(&sess.model.get_path("/s").unwrap().data));
+        }
+    }
     let _ = ctx;
     Ok(crate::rng::fnv64(&sess.model.get_path("/s").unwrap().data))
 }
@@ -367,7 +394,7 @@ fn c08_case(ctx: &Ctx, rep: &mut Report, rng: &mut Rng, version: Version, bufsiz
     // sector / mini sector) and all free sectors hold garbage
     let mut start = None;
     if rng.chance(1, 3) {
-        let lens: &[usize] = &[1, 30, 100, 600, 4000, 4097, 4200, 5000, 8193, 9000, 13000];
+        let lens: &[usize] = &[0, 0, 1, 30, 100, 600, 4000, 4097, 4200, 5000, 8193, 9000, 13000];
         let mut items: Vec<(String, Vec<u8>)> = Vec::new();
         for (i, n) in names.iter().enumerate() {
             if rng.chance(3, 4) {
@@ -578,6 +605,95 @@ fn c07_checkpoint(sess: &mut Session, rep: &mut Report, done: &mut Vec<Step>) ->
     Ok(())
 }
 
+/// A listing that is in progress while a handle changes a stream's length: entries handed
+/// out after the write must describe the stream as it is then (scratch storage, removed
+/// again; the session's model is not involved).
+fn listing_across_a_write_episode(sess: &mut Session, rng: &mut Rng, rep: &mut Report) -> Result<(), Fail> {
+    use std::io::{Seek, Write};
+    let io = |what: &str| {
+        let w = what.to_string();
+        move |e: std::io::Error| ("listing across a write | call failed".to_string(), format!("{w}: {e}"))
+    };
+    let add = 1 + rng.below(6000);
+    let walk = rng.chance(1, 2);
+    let cf = sess.cf();
+    cf.create_storage("/it").map_err(io("create_storage"))?;
+    for (n, len) in [("a", 100usize), ("b", 5000), ("c", 300)] {
+        let mut s = cf.create_stream(format!("/it/{n}")).map_err(io("create_stream"))?;
+        s.write_all(&engine::payload(40, len)).map_err(io("write"))?;
+        s.flush().map_err(io("flush"))?;
+    }
+    let mut h = cf.open_stream("/it/c").map_err(io("open_stream"))?;
+    let seen: Vec<(String, u64)> = {
+        let mut it: Box<dyn Iterator<Item = cfb::Entry>> = if walk { Box::new(cf.walk_storage("/it").map_err(io("walk_storage"))?) } else { Box::new(cf.read_storage("/it").map_err(io("read_storage"))?) };
+        let mut v: Vec<(String, u64)> = it.by_ref().take(1).map(|e| (e.name().to_string(), e.len())).collect();
+        h.seek(SeekFrom::End(0)).map_err(io("seek"))?;
+        h.write_all(&engine::payload(41, add as usize)).map_err(io("write through the handle"))?;
+        h.flush().map_err(io("flush the handle"))?;
+        v.extend(it.map(|e| (e.name().to_string(), e.len())));
+        v
+    };
+    drop(h);
+    let res = match seen.iter().find(|(n, _)| n == "c") {
+        Some((_, l)) if *l == 300 + add => Ok(()),
+        Some((_, l)) => Err(("listing across a write | stale length".to_string(), format!("{}(/it) was started, one entry taken, then /it/c grew from 300 to {} bytes through its handle (flushed); the listing then reported {} bytes for c", if walk { "walk_storage" } else { "read_storage" }, 300 + add, l))),
+        None => Err(("listing across a write | entry missing".to_string(), format!("{:?}", seen))),
+    };
+    sess.cf().remove_storage_all("/it").map_err(io("remove_storage_all"))?;
+    rep.count("listings_across_a_write");
+    res
+}
+
+/// A stream is re-created (create_stream over it) while a handle on it is open and a lower
+/// directory slot is free; whatever the old handle then does, it must not touch another
+/// stream (scratch storage, removed again).
+fn recreate_under_a_handle_episode(sess: &mut Session, rng: &mut Rng, rep: &mut Report) -> Result<(), Fail> {
+    use std::io::{Read, Seek, Write};
+    let io = |what: &str| {
+        let w = what.to_string();
+        move |e: std::io::Error| ("re-creation under a handle | call failed".to_string(), format!("{w}: {e}"))
+    };
+    let big = rng.chance(1, 2);
+    let cf = sess.cf();
+    cf.create_storage("/rc").map_err(io("create_storage"))?;
+    for n in ["low1", "low2"] {
+        cf.create_stream(format!("/rc/{n}")).map_err(io("create_stream"))?;
+    }
+    {
+        let mut s = cf.create_stream("/rc/x").map_err(io("create_stream"))?;
+        s.write_all(&vec![b'x'; if big { 5000 } else { 10 }]).map_err(io("write"))?;
+        s.flush().map_err(io("flush"))?;
+    }
+    let mut h = cf.open_stream("/rc/x").map_err(io("open_stream"))?;
+    cf.remove_stream("/rc/low1").map_err(io("remove_stream"))?;
+    drop(cf.create_stream("/rc/x").map_err(io("create_stream over the open stream"))?);
+    let d_want = vec![b'd'; if big { 4500 } else { 10 }];
+    {
+        let mut s = cf.create_stream("/rc/d").map_err(io("create_stream"))?;
+        s.write_all(&d_want).map_err(io("write"))?;
+        s.flush().map_err(io("flush"))?;
+    }
+    // the old handle is used again; its own results are not judged (its stream was emptied
+    // behind its back), only what happens to the others
+    let _ = h.seek(SeekFrom::Start(0));
+    let _ = h.write_all(b"0123456789");
+    let _ = h.flush();
+    drop(h);
+    let mut got = Vec::new();
+    cf.open_stream("/rc/d").map_err(io("open /rc/d"))?.read_to_end(&mut got).map_err(io("read /rc/d"))?;
+    let low2 = cf.entry("/rc/low2").map(|e| e.len()).map_err(io("entry /rc/low2"))?;
+    let res = if got != d_want {
+        Err(("re-creation under a handle | another stream was touched".to_string(), format!("/rc/x re-created with create_stream while a handle on it was open (a lower directory slot was free); after the old handle wrote 10 bytes, /rc/d reads {:?}... instead of its {} bytes of 'd'", &got[..got.len().min(12)], d_want.len())))
+    } else if low2 != 0 {
+        Err(("re-creation under a handle | another stream was touched".to_string(), format!("/rc/low2 has {low2} bytes")))
+    } else {
+        Ok(())
+    };
+    sess.cf().remove_storage_all("/rc").map_err(io("remove_storage_all"))?;
+    rep.count("recreations_under_a_handle");
+    res
+}
+
 fn c07_case(ctx: &Ctx, rep: &mut Report, rng: &mut Rng, version: Version, bufsize: Option<usize>, done: &mut Vec<Step>) -> Result<(), Fail> {
     let mut sess = Session::create(version, bufsize).map_err(|e| ("create | ok | err".to_string(), format!("{e}")))?;
     // "every entry's metadata is left as the model predicts" includes the root's: give it
@@ -591,7 +707,7 @@ fn c07_case(ctx: &Ctx, rep: &mut Report, rng: &mut Rng, version: Version, bufsiz
         run_step(&mut sess, Step::Api(Op::SetState("/".into(), rng.next_u32() | 1)), done, rep)?;
     }
     // sibling sets built middle-first so that interior nodes have two children
-    let pool: Vec<&str> = vec!["h", "d", "l", "b", "f", "j", "n", "a", "c", "e", "g", "i", "k", "m", "o", "D", "bb", "hh", "\u{e9}", "zz"];
+    let pool: Vec<&str> = vec!["h", "d", "l", "\u{e9}", "b", "f", "j", "n", "\u{3c9}\u{3bc}", "a", "c", "e", "g", "i", "k", "m", "o", "D", "bb", "hh", "r\u{e9}sum\u{e9}", "zz"];
     let storages = ["/", "/st", "/st/in"];
     run_step(&mut sess, Step::Api(Op::CreateStorageAll("/st/in".into())), done, rep)?;
     let child = |st: &str, n: &str| if st == "/" { format!("/{n}") } else { format!("{st}/{n}") };
@@ -615,6 +731,14 @@ fn c07_case(ctx: &Ctx, rep: &mut Report, rng: &mut Rng, version: Version, bufsiz
     let n_ops = if ctx.quick() { rng.range(20, 90) } else { rng.range(40, 300) };
     let mut pending_slot_reuse = false;
     for _ in 0..n_ops {
+        if rng.chance(1, 40) {
+            if rng.chance(1, 2) {
+                listing_across_a_write_episode(&mut sess, rng, rep)?;
+            } else {
+                recreate_under_a_handle_episode(&mut sess, rng, rep)?;
+            }
+            continue;
+        }
         let idx = gen::index(&sess);
         let open = sess.open_slots();
         let w = rng.below(100);
@@ -648,6 +772,8 @@ fn c07_case(ctx: &Ctx, rep: &mut Report, rng: &mut Rng, version: Version, bufsiz
             let names = model::normalise(&p).unwrap();
             if sess.handle_on(&names).is_none() {
                 let slot = sess.free_slot();
+                // a third of the handles are opened under a letter-case variant of the path
+                let p = if rng.chance(1, 3) { model::join(&names.iter().map(|n| gen::case_variant(rng, n)).collect::<Vec<_>>()) } else { p };
                 run_step(&mut sess, Step::HOpen { slot, path: p, how: OpenHow::Open }, done, rep)?;
                 rep.count("long_lived_handles_opened");
             }
@@ -665,7 +791,9 @@ fn c07_case(ctx: &Ctx, rep: &mut Report, rng: &mut Rng, version: Version, bufsiz
         }
         if w < 54 && open.len() > 1 {
             let slot = *rng.pick(&open);
-            run_step(&mut sess, Step::HClose { slot }, done, rep)?;
+            // flush-and-drop, or just drop (Drop writes the buffer back)
+            let st = if rng.chance(1, 2) { Step::HClose { slot } } else { Step::HDrop { slot } };
+            run_step(&mut sess, st, done, rep)?;
             continue;
         }
         if w < 80 {
